@@ -85,13 +85,20 @@ Record jthread := {
   j_out : outcome
 }.
 
+(* events of the Join model carry the promise they concern *)
+Inductive jevent :=
+| JEBegin (t k : nat)                 (* thread t: promise k leaves the unresolved state (caller := nil) *)
+| JEResolved (t k : nat)              (* thread t: result of promise k set; pipelined calls are made on it *)
+| JEDeliver (t k : nat) (d : dest)    (* call of thread t delivered at promise k (end of the traversal) *)
+| JEDirect (t : nat) (d : dest).      (* call of thread t through an already resolved / released client *)
+
 Record jconfig := {
-  proms : list prom;
+  proms : list (nat * prom);   (* finite map promise index -> state *)
   jproxies : list jproxy;
   jthreads : list jthread;
   jslots : list (Z * handle);
   jgates : list nat;
-  jevents : list event
+  jevents : list jevent
 }.
 
 Definition sp_mu (r : prom) v : prom := {| p_mu := v; p_caller := p_caller r; p_signals := p_signals r; p_resclosed := p_resclosed r; p_ongoing := p_ongoing r; p_stopped := p_stopped r; p_known := p_known r; p_joined := p_joined r; p_next := p_next r; p_clients := p_clients r; p_hastable := p_hastable r; p_crefs := p_crefs r; p_relflag := p_relflag r; p_result := p_result r |}.
@@ -150,12 +157,24 @@ Definition new_prom (k : nat) : prom :=
 Definition dfl_jpx : jproxy :=
   {| jx_owner := 0; jx_path := []; jx_refs := 0; jx_calls := 0; jx_target := None; jx_done := false; jx_rel := false |}.
 
-Definition getp (c : jconfig) (k : nat) : prom := nth k (proms c) dfl_prom.
-Definition setp (c : jconfig) (k : nat) (p : prom) : jconfig := sproms c (upd k p (proms c)).
+Fixpoint pm_get (m : list (nat * prom)) (k : nat) : prom :=
+  match m with
+  | [] => dfl_prom
+  | (k', p) :: r => if Nat.eqb k' k then p else pm_get r k
+  end.
+
+Fixpoint pm_set (m : list (nat * prom)) (k : nat) (p : prom) : list (nat * prom) :=
+  match m with
+  | [] => [(k, p)]
+  | (k', p') :: r => if Nat.eqb k' k then (k', p) :: r else (k', p') :: pm_set r k p
+  end.
+
+Definition getp (c : jconfig) (k : nat) : prom := pm_get (proms c) k.
+Definition setp (c : jconfig) (k : nat) (p : prom) : jconfig := sproms c (pm_set (proms c) k p).
 Definition getx (c : jconfig) (x : nat) : jproxy := nth x (jproxies c) dfl_jpx.
 Definition setx (c : jconfig) (x : nat) (p : jproxy) : jconfig := sjproxies c (upd x p (jproxies c)).
 Definition sett (c : jconfig) (t : nat) (th : jthread) : jconfig := sjthreads c (upd t th (jthreads c)).
-Definition jlog (c : jconfig) (e : event) : jconfig := sjevents c (e :: jevents c).
+Definition jlog (c : jconfig) (e : jevent) : jconfig := sjevents c (e :: jevents c).
 
 Definition free (c : jconfig) (k : nat) : bool := match p_mu (getp c k) with None => true | Some _ => false end.
 Definition held_by (c : jconfig) (k t : nat) : bool :=
@@ -218,13 +237,13 @@ Definition do_final (v : jvariant) (c : jconfig) (t : nat) (th : jthread) (k : n
 Definition do_known (c : jconfig) (t : nat) (th : jthread) (k : nat) (r : resolution) : jconfig :=
   let p := getp c k in
   let p1 := sp_mu (sp_known (close_joined (sp_result p (Some r))) CClosed) None in
-  sett (jlog (setp c k p1) (EResolved t)) t (sj_rest (sj_res (sj_cur (jgoto th QFul) k) r) (rows_of p)).
+  sett (jlog (setp c k p1) (JEResolved t k)) t (sj_rest (sj_res (sj_cur (jgoto th QFul) k) r) (rows_of p)).
 
 (* resolve(r, e) entered with p.mu held and p.caller = nil *)
 Definition resolve_entry (v : jvariant) (c : jconfig) (t : nat) (th : jthread) (k : nat) (r : resolution) : jconfig :=
   let p := getp c k in
   match rows_of p, 0 <? p_ongoing p with
-  | [], false => do_final v c t th k r
+  | [], false => do_final v (jlog c (JEResolved t k)) t th k r
   | _, true =>
     sett (setp c k (sp_mu (sp_stopped (sp_known p COpen) COpen) None)) t (sj_res (sj_cur (jgoto th QStopWait) k) r)
   | _, false => do_known (setp c k (sp_known p COpen)) t th k r
@@ -239,7 +258,7 @@ Definition sec_jresolve_start (v : jvariant) (c : jconfig) (t : nat) (th : jthre
   if negb (free c k) then None else
   let p := getp c k in
   if negb (p_caller p) then Some (sett c t (jfinish th OPanic)) else
-  let c1 := jlog (setp c k (sp_caller p false)) (EBegin t) in
+  let c1 := jlog (setp c k (sp_caller p false)) (JEBegin t k) in
   Some (resolve_entry v c1 t th k (jop_res (j_op th))).
 
 Definition sec_jfulfil (c : jconfig) (t : nat) (th : jthread) : option jconfig :=
@@ -260,7 +279,7 @@ Definition sec_join_start (c : jconfig) (t : nat) (th : jthread) (k par : nat) :
   if negb (free c k) then None else
   let p := getp c k in
   if negb (p_caller p) then Some (sett c t (jfinish th OPanic)) else
-  let c1 := jlog c (EBegin t) in
+  let c1 := jlog c (JEBegin t k) in
   if 0 <? p_ongoing p then
     Some (sett (setp c1 k (sp_joined (sp_stopped (sp_caller p false) COpen) COpen)) t (sj_par (sj_cur (jgoto th QJStopWait) k) par))
   else
@@ -310,9 +329,9 @@ Definition sec_trav (c : jconfig) (t : nat) (th : jthread) : option jconfig :=
     match j_op th with
     | JSend _ _ _ | JCall _ _ =>
       if p_caller p then
-        Some (sett (jlog (setp c k (sp_ongoing p (p_ongoing p + 1))) (EDeliver t DCaller)) t (jgoto th QInCaller))
+        Some (sett (jlog (setp c k (sp_ongoing p (p_ongoing p + 1))) (JEDeliver t k DCaller)) t (jgoto th QInCaller))
       else if is_pres p then Some (sett c t (jgoto th QWaitKnown))
-      else Some (sett (jlog c (EDeliver t (res_dest (jcur_res p) (j_path th)))) t (jcall_done th))
+      else Some (sett (jlog c (JEDeliver t k (res_dest (jcur_res p) (j_path th)))) t (jcall_done th))
     | JClient _ path s =>
       if p_caller p then
         match find_row (p_clients p) path with
@@ -356,12 +375,12 @@ Definition sec_jcall_finish (c : jconfig) (t : nat) (th : jthread) : option jcon
 Definition sec_jcall_start (c : jconfig) (t : nat) (th : jthread) (s : Z) : option jconfig :=
   match lookup_slot (jslots c) s with
   | None => Some (sett c t (jfinish th ONoSlot))
-  | Some (HDirect d) => Some (sett (jlog c (EDeliver t d)) t (jfinish th ORet))
+  | Some (HDirect d) => Some (sett (jlog c (JEDirect t d)) t (jfinish th ORet))
   | Some (HProxy x) =>
     let p := getx c x in
-    if jx_rel p then Some (sett (jlog c (EDeliver t DFail)) t (jfinish th ORet))
+    if jx_rel p then Some (sett (jlog c (JEDirect t DFail)) t (jfinish th ORet))
     else match jx_target p with
-         | Some d => Some (sett (jlog c (EDeliver t d)) t (jfinish th ORet))
+         | Some d => Some (sett (jlog c (JEDirect t d)) t (jfinish th ORet))
          | None =>
            Some (sett (setx c x (sjx_calls p (jx_calls p + 1))) t
                       (sj_via (sj_path (sj_cur (jgoto th QTrav) (jx_owner p)) (jx_path p)) (Some x)))
@@ -432,7 +451,7 @@ Definition jstep_thread (v : jvariant) (c : jconfig) (t : nat) (th : jthread) : 
   | QWaitKnown => match p_known (getp c (j_cur th)) with COpen => None | _ => Some (sett c t (jgoto th QAfterKnown)) end
   | QAfterKnown =>
     if negb (free c (j_cur th)) then None
-    else Some (sett (jlog c (EDeliver t (res_dest (jcur_res (getp c (j_cur th))) (j_path th)))) t (jcall_done th))
+    else Some (sett (jlog c (JEDeliver t (j_cur th) (res_dest (jcur_res (getp c (j_cur th))) (j_path th)))) t (jcall_done th))
   | QCallFinish => sec_jcall_finish c t th
   | QWaitRes => if p_resclosed (getp c (j_cur th)) then Some (sett c t (jgoto th QAfterRes)) else None
   | QAfterRes =>
@@ -477,7 +496,7 @@ Definition mk_jthread (o : jop) : jthread :=
      j_res := RRej; j_out := ONone |}.
 
 Definition jinit (np : nat) (ops : list jop) : jconfig :=
-  {| proms := map new_prom (seq 0 np); jproxies := []; jthreads := map mk_jthread ops; jslots := []; jgates := [];
+  {| proms := map (fun k => (k, new_prom k)) (seq 0 np); jproxies := []; jthreads := map mk_jthread ops; jslots := []; jgates := [];
      jevents := [] |}.
 
 Inductive jreach (v : jvariant) (np : nat) (ops : list jop) : jconfig -> Prop :=
@@ -539,4 +558,5 @@ Fixpoint jrun (v : jvariant) (c : jconfig) (sched : list nat) : jconfig :=
   | t :: r => match jstep v c t with Some c' => jrun v c' r | None => jrun v c r end
   end.
 
-Definition all_mu_free (c : jconfig) : bool := forallb (fun p => match p_mu p with None => true | _ => false end) (proms c).
+Definition all_mu_free (c : jconfig) : bool :=
+  forallb (fun kp => match p_mu (snd kp) with None => true | _ => false end) (proms c).
